@@ -367,7 +367,7 @@ def run_explore(ctx, harness, nproc, rounds, deadline_s):
         seed = (ctx.seed * 1000003 + i * 7919 + 17) % (1 << 62)
         err = open(os.path.join(edir, "stderr%d.txt" % i), "w")
         cmd = [harness, "explore", "--seed", str(seed), "--out", edir, "--name", "ex%d" % i, "--rounds", str(rounds),
-               "--deadline-s", str(deadline_s), "--round-timeout-s", "150"]
+               "--deadline-s", str(deadline_s), "--round-timeout-s", "150", "--min-rounds", "6"]
         procs.append((i, seed, subprocess.Popen(cmd, env=race_env(), stdout=subprocess.DEVNULL, stderr=err), err))
     results = []
     for i, seed, p, err in procs:
